@@ -85,6 +85,9 @@ func canonOpt(sb *strings.Builder, v reflect.Value, depth int, loose bool) {
 			s = "NaN"
 		}
 		// -0 and +0 are the same quantity (they are == in Go and identified by treat-empty-as-default)
+		if f == 0 {
+			s = "0"
+		}
 		if loose {
 			fmt.Fprintf(sb, "f(%s)", s)
 		} else {
